@@ -231,7 +231,13 @@ def cubic_spline(
 
         # Deal with a -> 0 (almost quadratic) cases.
 
-        quadratic_mask = inputs_a.abs() < quadratic_threshold
+        # The cubic term can only be dropped where it is also negligible relative to the bin's own
+        # slope (flat bins have all coefficients tiny); otherwise the quadratic may have no real root.
+        input_slopes = slopes.gather(-1, bin_idx)[..., 0]
+        input_bin_widths = input_right_cumwidths - input_left_cumwidths
+        quadratic_mask = (inputs_a.abs() < quadratic_threshold) & (
+            inputs_a.abs() * input_bin_widths.pow(2) < quadratic_threshold * input_slopes
+        )
         a = inputs_b[quadratic_mask]
         b = inputs_c[quadratic_mask]
         c = inputs_d[quadratic_mask] - inputs[quadratic_mask]
